@@ -36,7 +36,8 @@ def _objects(model, rng: random.Random, n: int):
 class HistoryRunner:
     """Performs one random operation per call to step(); never raises (failed API calls are part of the history)."""
 
-    KINDS = ["create", "create", "delete", "delete", "move", "link_add", "link_del", "attr_set", "create_bad", "setlist", "clear"]
+    KINDS = ["create", "create", "delete", "delete", "move", "link_add", "link_del", "attr_set", "create_bad", "setlist", "clear",
+             "reqrel_create", "reqrel_del"]
 
     def __init__(self, model, rng: random.Random, savedir=None, kinds: list[str] | None = None):
         self.model, self.rng, self.savedir = model, rng, savedir
@@ -119,19 +120,52 @@ class HistoryRunner:
         return self._last + " (unexpectedly succeeded)"
 
     def op_delete(self):
-        o = self.pick(lambda o: bool(self.rels(o, ("direct", "role"))))
+        for _ in range(25):
+            o = self.pick(lambda o: bool(self.rels(o, ("direct", "role"))))
+            if o is None:
+                return None
+            cands = [(n, a) for n, a in self.rels(o, ("direct", "role"))]
+            self.rng.shuffle(cands)
+            for name, acc in cands:
+                try:
+                    lst = getattr(o, name)
+                except Exception:  # noqa: BLE001
+                    continue
+                if len(lst):
+                    i = self.rng.randrange(-len(lst), len(lst))
+                    self._last = f"del {type(o).__name__}({o.uuid}).{name}[{i}] ({lst[i].uuid})"
+                    del lst[i]
+                    return self._last
+        return None
+
+    def _requirement(self):
+        return self.pick(lambda o: type(o).__name__ == "Requirement")
+
+    def op_reqrel_create(self):
+        o = self._requirement()
+        tgt = self.pick(lambda x: x._element is not (o._element if o is not None else None))
+        if o is None or tgt is None:
+            return None
+        self._last = f"Requirement({o.uuid}).relations.create(target={tgt.uuid})"
+        new = o.relations.create(target=tgt)
+        return self._last + f" -> {new.uuid}"
+
+    def op_reqrel_del(self):
+        o = self._requirement()
         if o is None:
             return None
-        cands = [(n, a) for n, a in self.rels(o, ("direct", "role"))]
-        self.rng.shuffle(cands)
-        for name, acc in cands:
-            lst = getattr(o, name)
-            if len(lst):
-                i = self.rng.randrange(-len(lst), len(lst))
-                self._last = f"del {type(o).__name__}({o.uuid}).{name}[{i}] ({lst[i].uuid})"
-                del lst[i]
-                return self._last
-        return None
+        lst = o.relations
+        how = self.rng.choice(["delitem", "delattr", "assign"])
+        self._last = f"Requirement({o.uuid}).relations: {how} ({len(lst)} relations)"
+        if how == "delitem":
+            if not len(lst):
+                return None
+            del lst[self.rng.randrange(len(lst))]
+        elif how == "delattr":
+            del o.relations
+        else:
+            o.relations = list(lst)[:1]
+        return self._last
 
     def op_clear(self):
         if self.rng.random() < 0.6:
